@@ -107,4 +107,15 @@ var props = map[string]propCfg{
 		},
 		QuickSecs: 120, ThorSecs: 1800,
 	},
+	"C14": {
+		Scenarios: []scenCfg{
+			{Name: "c14", Quick: 1500, Thorough: 150000, Batch: 40},
+		},
+		Rule: "c14: one evaluation = one simulated interactive session with hostile items (wide, combining, control, invalid bytes, empty and very long lines), a seeded option set (layouts, borders, margins, padding, preview positions, header/footer, --height incl. 1..3 and adaptive, wrap, gaps, multi-line), geometry from 1x1 with resize storms, input = keys, mouse reports, bracketed paste, truncated CSI and arbitrary bytes split at arbitrary points, actions incl. execute / execute-silent / transform / reload / preview / become / ctrl-z with child processes of seeded behaviour, signals and tty hang-up, and a seeded way of ending; checked: no panic in any goroutine, fzf exits (ctrl-c probe), tty state / temp files / child processes audited at the instant Run returns, every byte written understood by the VT emulator; distinct = distinct event-log hash; non-trivial = Run returned",
+		RealStub: map[string][]string{
+			"real": {"ParseOptions", "Run", "Terminal (all of Loop, rendering, previewer, executeCommand)", "LightRenderer", "reader/matcher"},
+			"stub": {"tty device + VT emulator", "stdin", "child processes, pipes, kill(2), process groups", "signals", "clock", "goroutine scheduler", "temp files: real files in a per-run TMPDIR"},
+		},
+		QuickSecs: 150, ThorSecs: 2400,
+	},
 }
